@@ -414,3 +414,87 @@ for _iv, _ib in (("div", 64), ("siv", 32)):
         for _t, _db in (("df", 64), ("di", 64), ("sf", 32), ("si", 32)):
             TABLE["llvm.x86.avx512.mask.gather3%s%s.%s" % (_iv, _n, _t)] = _gather512(_ib, _db)
             TABLE["llvm.x86.avx512.mask.scatter%s%s.%s" % (_iv, _n, _t)] = _scatter512(_ib, _db)
+
+
+# VFPCLASSPS/PD: per lane, OR of the categories selected by imm8
+def _fpclass(eb):
+    def h(I, ins, args, cond):
+        x, imm = args[0], args[1]
+        if imm[0] != "const":
+            return NotImplemented
+        n = x[1] // eb
+        return T.concat([T.mk("x86.fpclass", 1, T.slice_(x, i * eb, eb), imm[2]) for i in range(n)])
+    return h
+
+
+for _w in ("128", "256", "512"):
+    TABLE["llvm.x86.avx512.fpclass.ps." + _w] = _fpclass(32)
+    TABLE["llvm.x86.avx512.fpclass.pd." + _w] = _fpclass(64)
+
+
+# ROUNDPS/PD, VRNDSCALE with scale 0: imm[1:0] 0 nearest-even 1 floor 2 ceil 3 trunc; imm[2]=1 -> MXCSR.RC;
+# imm[3] suppresses the precision exception only (same value)
+_RND = {0: "call:llvm.roundeven", 1: "call:llvm.floor", 2: "call:llvm.ceil", 3: "call:llvm.trunc"}
+
+
+def _round(eb):
+    def h(I, ins, args, cond):
+        x, imm = args[0], args[1]
+        if imm[0] != "const":
+            return NotImplemented
+        m = imm[2]
+        if m >> 4:
+            return NotImplemented        # rndscale with a scale: not a plain rounding
+        name = "call:llvm.rint" if m & 4 else _RND[m & 3]
+        n = x[1] // eb
+        return T.concat([T.op(name, eb, T.slice_(x, i * eb, eb)) for i in range(n)])
+    return h
+
+
+TABLE["llvm.x86.sse41.round.ps"] = _round(32)
+TABLE["llvm.x86.sse41.round.pd"] = _round(64)
+TABLE["llvm.x86.avx.round.ps.256"] = _round(32)
+TABLE["llvm.x86.avx.round.pd.256"] = _round(64)
+
+
+def _rndscale(eb):
+    g = _round(eb)
+
+    def h(I, ins, args, cond):
+        # (x, imm, passthru, mask[, rounding]) ; accept only an all-ones constant mask
+        x, imm, pt, k = args[0], args[1], args[2], args[3]
+        if not T.all_ones(k):
+            return NotImplemented
+        if len(args) > 4 and not (args[4][0] == "const" and args[4][2] == 4):
+            return NotImplemented
+        return g(I, ins, [x, imm], cond)
+    return h
+
+
+for _w in ("128", "256", "512"):
+    TABLE["llvm.x86.avx512.mask.rndscale.ps." + _w] = _rndscale(32)
+    TABLE["llvm.x86.avx512.mask.rndscale.pd." + _w] = _rndscale(64)
+
+
+# STMXCSR / LDMXCSR: the control/status register as an explicit state
+def _stmxcsr(I, ins, args, cond):
+    cur = getattr(I._S, "mxcsr", None)
+    if cur is None:
+        cur = T.mk("mxcsr0", 32)
+        I._S.mxcsr = cur
+    I.do_store(args[0], cur, cond, 4, "stmxcsr", ins.get("loc"))
+    I._S.effects.append(("stmxcsr", cur, ins.get("loc")))
+    return None
+
+
+def _ldmxcsr(I, ins, args, cond):
+    v = I.do_load(args[0], 32, cond, 4, "ldmxcsr", ins.get("loc"))
+    if not T.all_ones(cond):
+        v = T.opaque(32, "conditional-ldmxcsr", v)
+    I._S.mxcsr = v
+    I._S.effects.append(("ldmxcsr", v, ins.get("loc")))
+    return None
+
+
+TABLE["llvm.x86.sse.stmxcsr"] = _stmxcsr
+TABLE["llvm.x86.sse.ldmxcsr"] = _ldmxcsr
